@@ -260,8 +260,10 @@ def spec_generated_scripts(work, n, seed, passive=False, steps=18):
                 else:
                     b = [0xFF] * 15 + [0, 0, 19, 4]
                 steps_.append(bgp.step("send", conn=m["conn"], b=b))
-            elif op in ("rclose", "rreset"):
+            elif op in ("rclose", "rreset", "stall", "unstall"):
                 steps_.append(bgp.step(op, conn=m["conn"]))
+            elif op == "write":
+                steps_.append(bgp.step("write", peer="p1", w=m["d"], b=[7, len(steps_) - 2]))
             elif op == "advance":
                 steps_.append(bgp.step("advance", d=m["d"]))
             elif op == "deletePeer":
